@@ -11,10 +11,10 @@ pub fn prop() -> Prop {
     Prop {
         id: "C15",
         level: "model_checking",
-        rule: "values = 30 (all types, absent, empty string, strings with quote, comma, CR, LF, tab, blanks at both ends, non-ASCII, strings spelled like keywords and numbers, 64-bit and fractional numbers, nested values holding such strings); csv: every row of 1..2 selections (3 selections: quick a slice of 2 700 rows, thorough all 27 000) over the values x 4 sets of selection names (plain; with blank, comma, quote; non-ASCII; two selections sharing a name) and multi-record inputs; rows of 5 selections with a field of 15..8192 characters (quote, comma, line break or non-ASCII at the far end; long nested cells) in each column in turn; 100 and 1000 records in one run; text: every row of 1..2 selections over 24 values with an unambiguous spelling x every option set within 3 deviations of the defaults (thorough: the full product of 7 776 option sets) over items separator(4), string prefix/postfix(3), null/true/false keywords(3,2,2), missing-value keyword(3), --headers(2), escape sequences(5, two of them with a replacement that contains a character another sequence escapes), row separator(3); ~60 numbers in less common forms (17 significant digits, exponent forms, the ends of the 64-bit and double ranges) read from the input, taken out of a list by a function, re-made by parse and passed through a pipe, as csv and text fields that must read back as exactly that number; text with one off-nominal option value at a time (~80: empty strings, values beginning with - or holding = or a quote, several characters, non-ASCII, a blank, for the items and row separators, the string prefix/postfix and the four keywords); non-trivial = the row holds a string with a special character, a nested value, an absent value or a keyword look-alike; distinct by construction",
+        rule: "values = 30 (all types, absent, empty string, strings with quote, comma, CR, LF, tab, blanks at both ends, non-ASCII, strings spelled like keywords and numbers, 64-bit and fractional numbers, nested values holding such strings); csv: every row of 1..2 selections (3 selections: quick a slice of 2 700 rows, thorough all 27 000) over the values x 4 sets of selection names (plain; with blank, comma, quote; non-ASCII; two selections sharing a name) and multi-record inputs; rows of 5 selections with a field of 15..8192 characters (quote, comma, line break or non-ASCII at the far end; long nested cells) in each column in turn; 100 and 1000 records in one run; text: every row of 1..2 selections over 24 values with an unambiguous spelling x every option set within 3 deviations of the defaults (thorough: the full product of 7 776 option sets) over items separator(4), string prefix/postfix(3), null/true/false keywords(3,2,2), missing-value keyword(3), --headers(2), escape sequences(5, two of them with a replacement that contains a character another sequence escapes), row separator(3); ~60 numbers in less common forms (17 significant digits, exponent forms, the ends of the 64-bit and double ranges) read from the input, taken out of a list by a function, re-made by parse and passed through a pipe, as csv and text fields that must read back as exactly that number; text with one off-nominal option value at a time (~80: empty strings, values beginning with - or holding = or a quote, several characters, non-ASCII, a blank, for the items and row separators, the string prefix/postfix and the four keywords); nested cells over the position grid (an atom of every kind at every position of every nesting shape of depth <=3, thorough 4) in csv and in text with the quote escaped; non-trivial = the row holds a string with a special character, a nested value, an absent value or a keyword look-alike; distinct by construction",
         explanation: "csv output is read back by an independent RFC 4180 reader (skip-initial-space): header = the names in order, N fields per record, each field recovered by type (string content, decimal spelling by exact value, True/False/null, concise JSON re-read by the strict reader and free of insignificant whitespace); text output is compared byte for byte with the rendering the option help pins (prefix + escaped characters + postfix, keywords, separators)",
         assumptions: COMMON_ASSUMPTIONS.to_vec(),
-        guards: vec!["off-nominal-option-value", "number-in-a-less-common-form", "equals-signs-inside-the-selection", "non-ascii-text-before-the-selection-name", "long-fields", "quote-in-string", "comma-in-string", "newline-in-string", "absent-field", "nested-with-special-string", "header-with-special-name", "escape-sequence-applied", "missing-keyword-printed", "text-headers", "three-fields"],
+        guards: vec!["nested-cell-from-the-position-grid", "off-nominal-option-value", "number-in-a-less-common-form", "equals-signs-inside-the-selection", "non-ascii-text-before-the-selection-name", "long-fields", "quote-in-string", "comma-in-string", "newline-in-string", "absent-field", "nested-with-special-string", "header-with-special-name", "escape-sequence-applied", "missing-keyword-printed", "text-headers", "three-fields"],
         budget_s: (100, 1800),
         single_worker: false,
         run,
@@ -463,6 +463,71 @@ fn text_part(ctx: &mut Ctx) {
     ctx.level_done(&format!("text:{}-option-sets-within-{kmax}-deviations", sets.len()));
 }
 
+/// Nested cells over the position grid: a cell that is an array or object with an atom of every kind (strings and
+/// containers among them) at every position of every nesting shape, in csv (one quoted field that reads back as the
+/// value) and in text with the quote escaped (byte for byte the documented rendering).
+fn nested_cells_grid(ctx: &mut Ctx) {
+    use crate::refmodel::spell;
+    let gdepth = ctx.tier.pick(3, 4);
+    let atoms = spell::grid_atoms();
+    let names = spell::grid_names();
+    let mut shapes: Vec<Vec<usize>> = Vec::new();
+    for dd in 1..=gdepth {
+        crate::explore::seqs_exact(spell::GRID_WRAPPERS, dd, |s| shapes.push(s.to_vec()));
+    }
+    let mut topts = opts_of(&[0; 9]);
+    topts.escapes = vec![('"', "\\\"")];
+    for (si, shape) in shapes.iter().enumerate() {
+        if !ctx.mine() {
+            continue;
+        }
+        for (ai, atom) in atoms.iter().enumerate() {
+            let name = names[(si + ai) % names.len()];
+            let v = spell::grid_value(shape, name, atom);
+            let input = format!("{{\"c0\": 1, \"c1\": {}, \"c2\": \"end\"}}\n", json::to_text(&v));
+            ctx.guard("nested-cell-from-the-position-grid");
+            ctx.transition(&("nested-grid", shape.len(), ai));
+            // csv
+            let args: Vec<String> = vec!["--output-style=csv".into(), "--select=.c0=a".into(), "--select=.c1=b".into(), "--select=.c2=c".into()];
+            let case = Case::owned(args, input.clone().into_bytes());
+            let obs = ctx.run(&case);
+            ctx.case_done();
+            ctx.trace_validated();
+            ctx.nontrivial();
+            let text = obs.out_str();
+            let ok = obs.res.is_ok()
+                && match csv::read(&text, "\n") {
+                    Ok(r) => r.len() == 2 && r[1].len() == 3 && field_ok(&r[1][0], &Some(V::int(1))).is_ok() && field_ok(&r[1][1], &Some(v.clone())).is_ok() && field_ok(&r[1][2], &Some(V::s("end"))).is_ok(),
+                    Err(_) => false,
+                };
+            if !ok {
+                ctx.outcome("violation");
+                ctx.violation("csv-field-not-recovered", &format!("csv nested cell of depth {} holding a {}", shape.len(), atom.type_name()), &[case.clone()], format!("three fields, the second the JSON text of {}", json::to_text(&v)), format!("stdout {text:?}"));
+            } else {
+                ctx.outcome("csv-ok");
+            }
+            // text, the quote escaped - for cells whose JSON text has one spelling only (a line feed in a member name may
+            // be written \n or \u000a, 1e300 with or without an exponent: the csv half reads those back by value)
+            if name.contains('\n') || name.contains('"') || matches!(atom, V::Num(Num::F(_))) {
+                continue;
+            }
+            let mut targs = topts.args();
+            targs.extend(["--select=.c0=a".to_string(), "--select=.c1=b".into(), "--select=.c2=c".into()]);
+            let expected = format!("{}{}{}{}{}{}", topts.field(&Some(V::int(1))), topts.items, topts.field(&Some(v.clone())), topts.items, topts.field(&Some(V::s("end"))), topts.row);
+            let tcase = Case::owned(targs, input.into_bytes());
+            let tobs = ctx.run(&tcase);
+            ctx.case_done();
+            if !tobs.res.is_ok() || tobs.stdout != expected.as_bytes() {
+                ctx.outcome("violation");
+                ctx.violation("text-output-differs-from-the-documented-rendering", &format!("text nested cell of depth {} holding a {}", shape.len(), atom.type_name()), &[tcase.clone()], format!("{expected:?}"), tobs.brief());
+            } else {
+                ctx.outcome("text-ok");
+            }
+        }
+    }
+    ctx.level_done(&format!("nested-cells-over-the-position-grid(depth<={gdepth},csv-and-text-with-the-quote-escaped)"));
+}
+
 /// Numbers in less common forms (17 significant digits, exponent forms, the ends of the 64-bit and double ranges), read
 /// from the input, taken out of a collection by a function, and re-made by parse: the csv / text field must be a decimal
 /// spelling that reads back as exactly that number.
@@ -733,6 +798,7 @@ fn run(ctx: &mut Ctx) {
     csv_part(ctx);
     csv_sizes(ctx);
     number_fields(ctx);
+    nested_cells_grid(ctx);
     text_part(ctx);
     text_off_nominal(ctx);
     let _ = Tier::Quick;
